@@ -41,9 +41,16 @@ def halfwaves(sig, fs, f_range, filter_kwargs=None, pad=True):
     """
     fk = dict(filter_kwargs or {})
     off = pad_amount(fs, f_range, fk, pad)
+    raw = np.asarray(sig)
     x = np.asarray(sig, dtype=float)
     if off:
         x = np.concatenate([np.zeros(off), x, np.zeros(off)])
+    # the raw samples are only ever *ordered*: keep them in their own dtype where the float64 image would merge neighbouring
+    # values (64-bit integers beyond 2**53)
+    if raw.dtype.kind in 'iu' and raw.dtype.itemsize == 8:
+        xr = np.concatenate([np.zeros(off, dtype=raw.dtype), raw, np.zeros(off, dtype=raw.dtype)]) if off else raw
+    else:
+        xr = x
     try:
         filt = filter_signal(x, fs, 'bandpass', f_range, remove_edges=False, **fk)
     except Exception as exc:  # noqa - the trusted filter design rejects this band / length: outside every property's domain
@@ -60,7 +67,7 @@ def halfwaves(sig, fs, f_range, filter_kwargs=None, pad=True):
         if r == 0 or r == len(runs) - 1:
             continue  # not closed by a zero-crossing on both sides
         waves.append((val, a - 1, b - 1))
-    return off, x, waves
+    return off, xr, waves
 
 
 def ref_extrema(sig, fs, f_range, filter_kwargs=None, boundary=0, first_extrema='peak', pad=True):
